@@ -49,7 +49,7 @@ def forwardref(
     else:
         name = typing.cast(str, ref)
 
-    module = _resolve_module_name(ref, module)
+    module = _resolve_module_name(name, module)
     if module is not None:
         name = name.replace(f"{module}.", "")
 
